@@ -7,7 +7,7 @@ From BS Require Import Model.Base Model.Regex Model.Num Model.ExprParser Model.S
   Gen.Unicode Proofs.ScriptFacts Proofs.C06 Proofs.C10 Proofs.C10ws Proofs.C10wsExpr Proofs.C10wsIndent
   Proofs.ExprFuel Proofs.C10wsFull Proofs.RegexShiftG Proofs.C10wsIndent2 Proofs.C10wsReturn
   Proofs.C10tokLex Proofs.C10tokSpaced Proofs.RegexTrail Proofs.C10tokTrail Proofs.RegexTrail2
-  Proofs.RegexTrail3 Proofs.C10stmtTrail Proofs.C10parseNoeq Proofs.C10classifyTrail Proofs.C10stmtGaps.
+  Proofs.RegexTrail3 Proofs.C10stmtTrail Proofs.C10parseNoeq Proofs.C10classifyTrail Proofs.C10stmtGaps Proofs.C10stmtGaps2.
 
 (* ---- LF versus CRLF: both texts have the same lines ---- *)
 Theorem C10_crlf : forall lines, lines <> [] -> Forall no_lf lines -> Forall (fun l => ends_cr l = false) lines ->
@@ -347,28 +347,32 @@ Proof.
   eexists. split; [vm_compute; reflexivity | vm_compute; discriminate].
 Qed.
 
-(* ---- INNER gaps of a statement line (round 6, Proofs/C10stmtGaps.v): the white runs at the places where the statement
-   regex has `\s*` / `\s+`.  PARTIAL: the kinds assignment, if, elif, while (plus, from before, `else :` C10_ws_else_gap and the
-   keyword-only lines).  NOT covered: function begin, for, label, jump / jumpif, return expr, include (oracle only).
-   For these four kinds the classification is computed from the PIECES of the line, for ALL white runs:
-     w1 name w2 = T           ->  KAssign name e        w1 if w2 T : w4     ->  KIf e
-     w1 elif w2 T : w4        ->  KElif (ROk e)         w1 while w2 T : w4  ->  KWhile e
-   (w1 w2 w4 arbitrary runs of `\s` characters, w2 non-empty after a keyword; name an identifier; T an LF-free text with
-   parse_expression T = EOk e, starting with a non-space character in the keyword forms — in the assignment T includes the run
-   after `=`; the run in front of the colon belongs to T: the greedy group `(.+)` takes it and the parser ignores it).
-   stmt_spaced k l1 l2 relates two such layouts of the same pieces whose expression texts are related by `spaced` (white runs
+(* ---- INNER gaps of a statement line (round 6, Proofs/C10stmtGaps.v, C10stmtGaps2.v): the white runs at the places where
+   the statement regex has `\s*` / `\s+`.  PARTIAL: the kinds assignment, if, elif, while, return <expr>, jump, jumpif (plus,
+   from before, `else :` C10_ws_else_gap and the keyword-only lines).  NOT covered: function begin, for, label, include (oracle
+   only).  For the seven kinds the classification is computed from the PIECES of the line, for ALL white runs:
+     w1 name w2 = T        ->  KAssign name e           w1 if w2 T : w4            ->  KIf e
+     w1 elif w2 T : w4     ->  KElif (ROk e)            w1 while w2 T : w4         ->  KWhile e
+     w1 return w2 T        ->  KReturn (Some e)         w1 jump w2 name w4         ->  KJump name None
+     w1 jumpif g ( T ) w2 name w4  ->  KJump name (Some e)
+   (w1 w2 w4 g arbitrary runs of `\s` characters, w2 non-empty where the regex has `\s+`; name an identifier; T an LF-free text
+   with parse_expression T = EOk e, starting with a non-space character after if / elif / while / return — in the assignment T
+   includes the run after `=`, in jumpif the runs inside the parentheses; the run in front of the colon belongs to T: the greedy
+   group `(.+)` takes it and the parser ignores it).
+   stmt_spaced2 k l1 l2 relates two such layouts of the same pieces whose expression texts are related by `spaced` (white runs
    between the expression tokens, C10_ws_expression_tokens_partial); both lines are then classified as the same k.  The
    premise is "the expression text parses" instead of "l1 classifies successfully" (a decomposition of l1 into pieces is
    not unique a priori).  Proved by direct readings of the regenerated regexes (RegexEval.star_bt: greedy runs, the `(.+)`
-   that backs off to the last colon), first-character rejection of the regexes tried earlier by classify, and: an
-   expression never starts with `=` (otherwise `if =1:` would be an assignment to `if`). ---- *)
-Theorem C10_ws_statement_gaps_partial : forall n k l1 l2, stmt_spaced k l1 l2 ->
+   that backs off to the last colon / closing parenthesis), first-character rejection of the regexes tried earlier by
+   classify, and: an expression never starts with `=` or `:` (otherwise `if =1:` would be an assignment to `if`,
+   `return :` a label). ---- *)
+Theorem C10_ws_statement_gaps_partial : forall n k l1 l2, stmt_spaced2 k l1 l2 ->
   Lower.classify n l1 = ROk k /\ Lower.classify n l2 = ROk k.
-Proof. exact stmt_spaced_classify. Qed.
+Proof. exact stmt_spaced2_classify. Qed.
 Print Assumptions C10_ws_statement_gaps_partial.
 
-Theorem C10_ws_statement_gaps_symmetric : forall k l1 l2, stmt_spaced k l1 l2 -> stmt_spaced k l2 l1.
-Proof. exact stmt_spaced_sym. Qed.
+Theorem C10_ws_statement_gaps_symmetric : forall k l1 l2, stmt_spaced2 k l1 l2 -> stmt_spaced2 k l2 l1.
+Proof. exact stmt_spaced2_sym. Qed.
 Print Assumptions C10_ws_statement_gaps_symmetric.
 
 Theorem C10_ws_assignment_pieces : forall n w1 name w2 T e, white w1 -> white w2 -> ident name = true -> nolf T ->
@@ -389,6 +393,20 @@ Theorem C10_ws_while_pieces : forall n w1 w2 T w4 e, white w1 -> white w2 -> w2 
 Proof. exact classify_while_shape. Qed.
 Print Assumptions C10_ws_while_pieces.
 
+Theorem C10_ws_return_pieces : forall n w1 w2 T e, white w1 -> white w2 -> w2 <> [] -> nolf w2 -> nolf T -> hd_ok is_sp T ->
+  parse_expression T = EOk e -> Lower.classify n (w1 ++ U "return" ++ w2 ++ T) = ROk (KReturn (Some e)).
+Proof. exact classify_return_shape. Qed.
+Print Assumptions C10_ws_return_pieces.
+Theorem C10_ws_jump_pieces : forall n w1 w2 name w4, white w1 -> white w2 -> w2 <> [] -> ident name = true -> white w4 ->
+  Lower.classify n (w1 ++ U "jump" ++ w2 ++ name ++ w4) = ROk (KJump name None).
+Proof. exact classify_jump_shape. Qed.
+Print Assumptions C10_ws_jump_pieces.
+Theorem C10_ws_jumpif_pieces : forall n w1 g T w2 name w4 e, white w1 -> white g -> nolf T -> white w2 -> w2 <> [] ->
+  ident name = true -> white w4 -> parse_expression T = EOk e ->
+  Lower.classify n (w1 ++ U "jumpif" ++ g ++ U "(" ++ T ++ U ")" ++ w2 ++ name ++ w4) = ROk (KJump name (Some e)).
+Proof. exact classify_jumpif_shape. Qed.
+Print Assumptions C10_ws_jumpif_pieces.
+
 Theorem C10_expression_never_starts_eq : forall t e, parse_expression (U "=" ++ t) <> EOk e.
 Proof. exact parse_hd_noeq. Qed.
 Print Assumptions C10_expression_never_starts_eq.
@@ -396,22 +414,32 @@ Print Assumptions C10_expression_never_starts_eq.
 (* non-vacuity: a tight and a loose layout of each of the four kinds are related, and classify computes the same kind on both *)
 Example C10_ex_ws_statement_gaps :
   exists e, parse_expression (U "a<1") = EOk e /\
-    stmt_spaced (KAssign (U "x1") e) (U "x1=a<1") (U " x1\000009 =  a <  1 ") /\
-    stmt_spaced (KIf e) (U "if a<1:") (U "  if \000009a <  1 : ") /\
-    stmt_spaced (KElif (ROk e)) (U "elif a<1:") (U "elif  a <  1 :") /\
-    stmt_spaced (KWhile e) (U "while a<1:") (U "\000009while a <  1 :  ").
-Proof. exact stmt_spaced_examples. Qed.
+    stmt_spaced2 (KAssign (U "x1") e) (U "x1=a<1") (U " x1\000009 =  a <  1 ") /\
+    stmt_spaced2 (KIf e) (U "if a<1:") (U "  if \000009a <  1 : ") /\
+    stmt_spaced2 (KElif (ROk e)) (U "elif a<1:") (U "elif  a <  1 :") /\
+    stmt_spaced2 (KWhile e) (U "while a<1:") (U "\000009while a <  1 :  ") /\
+    stmt_spaced2 (KReturn (Some e)) (U "return a<1") (U "  return \000009a <  1 ") /\
+    stmt_spaced2 (KJump (U "top") None) (U "jump top") (U " jump  top\000009") /\
+    stmt_spaced2 (KJump (U "top") (Some e)) (U "jumpif(a<1) top") (U "  jumpif ( a<1 )\000009top ").
+Proof.
+  destruct stmt_spaced_examples as (e & PE & A & B & C & D). destruct stmt_spaced2_examples as (e' & PE' & R & J & JI).
+  assert (e' = e) by congruence. subst e'. exists e. split; [exact PE|].
+  exact (conj (ss2_base _ _ _ A) (conj (ss2_base _ _ _ B) (conj (ss2_base _ _ _ C) (conj (ss2_base _ _ _ D) (conj R (conj J JI)))))).
+Qed.
 
 Example C10_ex_ws_statement_gaps_computed :
   Lower.classify 2 (U "x1=a<1") = Lower.classify 2 (U " x1\000009 =  a <  1 ") /\
   Lower.classify 2 (U "if a<1:") = Lower.classify 2 (U "  if \000009a <  1 : ") /\
   (exists e, Lower.classify 2 (U "while a<1:") = ROk (KWhile e) /\ Lower.classify 2 (U "\000009while a <  1 :  ") = ROk (KWhile e)) /\
+  Lower.classify 2 (U "jumpif(a<1) top") = Lower.classify 2 (U "  jumpif ( a<1 )\000009top ") /\
+  Lower.classify 2 (U "return a<1") = Lower.classify 2 (U "  return \000009a <  1 ") /\
   (* white space inside a piece is outside the relation: *)
   Lower.classify 2 (U "if a<1:") <> Lower.classify 2 (U "i f a<1:") /\
   Lower.classify 2 (U "ifa<1:") <> Lower.classify 2 (U "if a<1:").
 Proof.
   split; [vm_compute; reflexivity|]. split; [vm_compute; reflexivity|].
-  split; [eexists; split; vm_compute; reflexivity|]. split; vm_compute; discriminate.
+  split; [eexists; split; vm_compute; reflexivity|]. split; [vm_compute; reflexivity|]. split; [vm_compute; reflexivity|].
+  split; vm_compute; discriminate.
 Qed.
 
 (* C10_ws_tokens_partial — the FULL clause "breaking a line at any point where a space is allowed / changing indentation or
